@@ -102,8 +102,99 @@ func genCtxConfig(ch *Chooser, prop, tier string, disabled map[string]bool) *Run
 	return cfg
 }
 
+// model applies the bookkeeping of one operation whose real call has completed (result: ctx / err of For).
+func (r *ctxRig) check() (string, string) {
+	for _, p := range r.handed {
+		want := r.shutdown || (r.watermark != nil && p.hv.less(*r.watermark))
+		got := p.ctx.Err() != nil
+		if got != want {
+			cls := "context-not-cancelled"
+			if got {
+				cls = "context-cancelled-too-early"
+			}
+			return cls, fmt.Sprintf("context of (h%d,v%d) cancelled=%v but the model says %v (watermark=%v shutdown=%v)", p.hv.h, p.hv.v, got, want, r.watermark, r.shutdown)
+		}
+	}
+	return "", ""
+}
+
+// overlapped: the registry is shared by the main loop (which cancels) and the worker (which asks for contexts). One
+// operation runs on a second goroutine and is preempted at one of its scheduling points (H4); meanwhile a few
+// operations run start to finish; then the first one finishes. The registry must behave as if the preempted operation
+// had happened at one instant (here: when it finishes - it is parked before it has done anything, or the code under
+// test has split its effect).
+func (r *ctxRig) overlapped(w *World, g cOp, between []cOp) (string, string) {
+	type res struct {
+		ctx context.Context
+		err error
+	}
+	done := make(chan res, 1)
+	w.armYield(nil, "", 1+w.ch.Pick("ctx-yield-in", 4), "")
+	go func() {
+		var x res
+		if g.kind == 0 {
+			x.ctx, x.err = r.vc.For(shv(g.hv))
+		} else {
+			r.vc.CancelOlderThan(shv(g.hv))
+		}
+		done <- x
+	}()
+	simWait()
+	w.ys.arm = nil
+	parked := len(w.ys.loose) > 0
+	applyG := func(x res) (string, string) {
+		r.n++
+		if g.kind == 1 {
+			if r.watermark == nil || r.watermark.less(g.hv) {
+				y := g.hv
+				r.watermark = &y
+			}
+		} else {
+			stale := r.watermark != nil && g.hv.less(*r.watermark)
+			if (x.err != nil) != (r.shutdown || stale) {
+				return "for-error-mismatch", fmt.Sprintf("overlapped %s returned err=%v but the model says error=%v", g, x.err, r.shutdown || stale)
+			}
+			if x.err == nil {
+				for i := len(r.handed) - 1; i >= 0; i-- {
+					if p := r.handed[i]; p.hv == g.hv {
+						if p.ctx != x.ctx && p.ctx.Err() == nil {
+							return "two-live-contexts", fmt.Sprintf("overlapped %s returned a second live context for the same position", g)
+						}
+						break
+					}
+				}
+				r.handed = append(r.handed, handedCtx{g.hv, x.ctx, r.n})
+			}
+		}
+		return r.check()
+	}
+	if !parked {
+		if cls, msg := applyG(<-done); cls != "" {
+			return cls, msg
+		}
+	} else {
+		w.probe("registry-operation-preempted")
+		w.stats.Fault("preempted-at-sync-point")
+	}
+	for _, o := range between {
+		w.ev("  (meanwhile) %s", o)
+		if cls, msg := r.apply(o); cls != "" {
+			return cls, "while " + g.String() + " was preempted: " + msg
+		}
+	}
+	if parked {
+		w.releaseLooseYields()
+		simWait()
+		if cls, msg := applyG(<-done); cls != "" {
+			return cls, "after the preempted " + g.String() + " finished: " + msg
+		}
+	}
+	return "", ""
+}
+
 func RunCtxComp(w *World) {
 	r := newCtxRig()
+	w.enableYields()
 	spanH := 1 + w.ch.Pick("span-h", 4)
 	spanV := 1 + w.ch.Pick("span-v", 4)
 	maxView := w.ch.Pick("maxview-mode", 4) == 3 // umbrella contexts at view 2^64-1, as the library uses
@@ -134,6 +225,18 @@ func RunCtxComp(w *World) {
 		}
 		w.action([]string{"for", "cancel", "shutdown"}[o.kind])
 		w.ev("%s", o)
+		if o.kind != 2 && w.ch.Pick("overlap", 4) == 3 {
+			var between []cOp
+			for i := 0; i <= w.ch.Pick("overlap-n", 3); i++ {
+				b := cOp{kind: w.ch.Pick("overlap-kind", 2), hv: hv{base + uint64(w.ch.Pick("h", spanH+1)), uint64(w.ch.Pick("v", spanV+1))}}
+				between = append(between, b)
+			}
+			w.action("overlapped")
+			if cls, msg := r.overlapped(w, o, between); cls != "" {
+				w.violate("C15", "registry/overlapped/"+cls, "%s", msg)
+			}
+			continue
+		}
 		if cls, msg := r.apply(o); cls != "" {
 			w.violate("C15", "registry/"+cls, "%s", msg)
 		}
